@@ -80,6 +80,27 @@ def _recover():
         pass
 
 
+def _reset_executor():
+    """Histories must not leak into each other: a parent-side kill of the LAST call of a history can land after that call
+    has returned (the worker then dies idle, and the first call of the next history would fail for a fault it did not
+    inject).  Every history therefore ends by discarding the shared executor; the next one starts fresh workers."""
+    try:
+        from joblib.externals.loky import reusable_executor as RE
+        ex = RE._executor
+    except Exception:
+        return
+    if ex is None:
+        return
+    signal.setitimer(signal.ITIMER_REAL, WATCHDOG, 3.0)
+    try:
+        try:
+            ex.shutdown(wait=True, kill_workers=True)
+        finally:
+            signal.setitimer(signal.ITIMER_REAL, 0)
+    except BaseException:
+        _recover()
+
+
 class _Hang(BaseException):
     pass
 
@@ -284,6 +305,7 @@ def run_case(spec):
                 _recover()
             finally:
                 signal.setitimer(signal.ITIMER_REAL, 0)
+        _reset_executor()
     return {"nontrivial": nontrivial, "classes": sorted(set(classes))}
 
 
